@@ -394,6 +394,26 @@ def run_impl(case):
                 args = [w.names[a] if isinstance(a, str) and a in w.names else a for a in op[1:]]
             except Exception:  # noqa: BLE001
                 continue
+            if kind == "copychan":
+                # ["copychan", node, panel, label, node2, panel2, label2]
+                try:
+                    ca, cb = _chan_of(w, *op[1:4]), _chan_of(w, *op[4:7])
+                except Exception:  # noqa: BLE001
+                    continue
+                before = _snapshot(w)
+                res = "ok"
+                try:
+                    ca.copy_connections(cb)
+                except Exception as e:  # noqa: BLE001
+                    res = type(e).__name__
+                after = _snapshot(w)
+                model.append(f"copychan {w.cid[id(ca)]} {w.cid[id(cb)]}")
+                obs += _fmt(w, res, after)
+                snaps.append({"op": op, "ids": [w.cid[id(ca)], w.cid[id(cb)]], "res": res, "before": before,
+                              "after": after, "comp_kind": "-"})
+                bump("op:copychan")
+                bump(f"res:copychan:{res}")
+                continue
             if kind in ("replace", "copyio", "dag"):
                 if any(isinstance(a, str) and a not in w.names for a in op[1 : (3 if kind == "copyio" else 4)]):
                     continue
@@ -478,7 +498,7 @@ def _comp_kind(n):
 
 
 def model_input(case, impl=None):
-    return list(impl["model"]) if impl else []
+    return list(impl.get("model", [])) if impl else []
 
 
 def nontrivial(case, r):
@@ -558,7 +578,7 @@ def oracle(case, r):
                     "clause": "atomic",
                     "detail": f"op #{k} {op} raised {res} but changed {delta}",
                     "signature": {"clause": "atomic", "trigger": kind, "exc": res, "comp": s["comp_kind"],
-                                  "delta": "+".join(delta)},
+                                  "delta": "+".join(delta), "values": "values" in delta},
                 })
             continue
         if kind != "replace":
@@ -582,7 +602,8 @@ def oracle(case, r):
         old_chans = set(by_node.get(old, {}).values())
         new_chans = set(by_node.get(new, {}).values())
         for (panel, lab), oc in by_node.get(old, {}).items():
-            want = [x for x in b["conns"][oc] if x not in old_chans]
+            # a connection to one of the node's own channels becomes one to that channel's stand-in
+            want = [sigma.get(x, x) for x in b["conns"][oc] if not (x in old_chans and x not in sigma)]
             if not want:
                 continue
             nc = sigma.get(oc)
@@ -733,7 +754,12 @@ def _copyio_case(rng, tier):
     for _ in range(rng.randint(1, 3)):
         me = rng.choice(labs + [c[0] for c in case["cands"] if c[1] != "Workflow"])
         other = rng.choice(labs)
-        case["ops"].append(["copyio", me, other, rng.random() < 0.7, rng.random() < 0.6])
+        if rng.random() < 0.25:
+            panel, lab = rng.choice([("inputs", "x"), ("inputs", "y"), ("outputs", "o"), ("sin", "run"), ("sout", "ran")])
+            lab2 = rng.choice(["x", "y"]) if panel == "inputs" else lab
+            case["ops"].append(["copychan", me, panel, lab, other, panel if rng.random() < 0.9 else "outputs", lab2])
+        else:
+            case["ops"].append(["copyio", me, other, rng.random() < 0.7, rng.random() < 0.6])
     return case
 
 
@@ -854,6 +880,9 @@ def corpus():
     yield {"top": "wf", "children": [["a", "Pxy"], ["s", "Sxy"], ["t", "Pxy"], ["b", "Ixy"]],
            "data": [["a", "o", "t", "x"], ["s", "o", "t", "y"], ["a", "o", "b", "x"]], "cands": [],
            "ops": [["copyio", "b", "t", True, False]]}
+    yield {"top": "wf", "children": [["a", "Pxy"], ["s", "Sxy"], ["t", "Pxy"], ["b", "Ixy"]],
+           "data": [["s", "o", "t", "x"], ["a", "o", "t", "x"], ["a", "o", "b", "x"]], "cands": [],
+           "ops": [["copychan", "b", "inputs", "x", "t", "inputs", "x"]]}
     # D6: values_fail_hard: the outputs panel fails, the inputs panel is not reverted
     yield {"top": "wf", "children": [["t", "Pxy"], ["c", "Ixy"]], "data": [], "vals": [["t", "x", 5], ["t", "y", 6]],
            "cands": [], "ops": [["setout", "t", "o", "zzz"], ["copyio", "c", "t", True, True]]}
